@@ -1682,6 +1682,9 @@ impl Fs {
     /// Remove an empty directory.
     pub(crate) fn rmdir(&mut self, path: &Path) -> Result<(), &'static str> {
         if !self.dir_exists(path) {
+            if self.file_exists(path) || self.symlink_exists(path) {
+                return Err("Not a directory");
+            }
             return Err("No such file or directory");
         }
 
